@@ -847,6 +847,7 @@ type op =
 | OIntoIter of nat * nat
 | ONext of nat
 | ONextBack of nat
+| ONth of nat * z
 | OHint of nat
 | OAsSlice of nat
 | OCloneIter of nat * nat
@@ -921,6 +922,10 @@ val done0 : unit m -> (outtag * retv) m
 val with_ret : retv m -> (outtag * retv) m
 
 val yield : tcfg -> elem option -> retv m
+
+val iter_front : tcfg -> nat -> elem option m
+
+val iter_nth : tcfg -> nat -> nat -> elem option m
 
 val step : tcfg -> (z -> z option) -> op -> (outtag * retv) m
 
